@@ -127,6 +127,9 @@ def _single_try(fn: ast.AsyncFunctionDef) -> ast.Try:
     after = fn.body[fn.body.index(t) + 1:]
     if len(after) != 1 or not isinstance(after[0], ast.Return):
         raise Untranslatable(f"{fn.name}: statements after the try are not a single return")
+    # the returned triple is pinned: exactly the three names bound inside the exchange, nothing applied to them
+    if ast.unparse(after[0].value) not in ("(status, resp_headers, resp_body_text)", "status, resp_headers, resp_body_text"):
+        raise Untranslatable(f"{fn.name}: returns `{ast.unparse(after[0].value)}`, not (status, resp_headers, resp_body_text)")
     # nothing awaited outside the try except `asyncio.sleep(0)`
     for stmt in fn.body[: fn.body.index(t)]:
         for n in ast.walk(stmt):
@@ -283,6 +286,11 @@ def _logging(fn: ast.AsyncFunctionDef, t: ast.Try) -> Tuple[List[str], List[str]
             post += _log_block(st.body, "post")
         elif isinstance(st, (ast.Assign, ast.AnnAssign)):
             v = st.value
+            tgt = ast.unparse(st.targets[0] if isinstance(st, ast.Assign) else st.target)
+            want = {"status": "response.status", "resp_headers": "response.headers or {}",
+                    "resp_body": "await response.read()", "resp_body_text": "await response.text()"}
+            if tgt not in want or ast.unparse(v) != want[tgt]:
+                raise Untranslatable(f"line {st.lineno}: `{ast.unparse(st)[:70]}` is not one of the four pinned bindings of the exchange")
             ok = (isinstance(v, ast.Attribute) and _is_name(v.value, "response")) \
                 or (isinstance(v, ast.BoolOp) and all(isinstance(x, (ast.Attribute, ast.Dict)) for x in v.values)) \
                 or (isinstance(v, ast.Await) and isinstance(v.value, ast.Call) and isinstance(v.value.func, ast.Attribute)
